@@ -251,4 +251,4 @@ impl Selector {
 
 #[cfg(kani)]
 #[path = "/verif/harness/may/io_sys_unix_epoll.rs"]
-mod verif_kani;
+pub(crate) mod verif_kani;
